@@ -22,6 +22,10 @@ const (
 // Pipe is one direction of a byte stream.
 type Pipe struct {
 	Mode Mode
+	// ErrWithLastData: a Read that drains the buffer after the stream ended
+	// returns the final bytes together with the end error (n > 0, err != nil),
+	// as io.Reader allows, instead of reporting the error on the next call.
+	ErrWithLastData bool
 
 	mu     sync.Mutex
 	buf    []byte
@@ -29,6 +33,8 @@ type Pipe struct {
 	wait   chan struct{}
 	Reads  []int // sizes returned, for reporting
 	Writes int
+	// DataWithErr counts reads that returned data and the end error together.
+	DataWithErr int
 }
 
 func (p *Pipe) bcast() {
@@ -88,8 +94,13 @@ func (p *Pipe) Read(b []byte) (int, error) {
 			copy(b, p.buf[:n])
 			p.buf = p.buf[n:]
 			p.Reads = append(p.Reads, n)
+			var err error
+			if p.ErrWithLastData && len(p.buf) == 0 && p.err != nil {
+				err = p.err
+				p.DataWithErr++
+			}
 			p.mu.Unlock()
-			return n, nil
+			return n, err
 		}
 		if p.err != nil {
 			err := p.err
